@@ -1028,7 +1028,7 @@ func (t *tScreen) TPuts(s string) {
 
 func (t *tScreen) Show() {
 	t.Lock()
-	if !t.fini {
+	if !t.fini && t.running {
 		t.resize()
 		t.draw()
 	}
@@ -1931,7 +1931,7 @@ func (t *tScreen) Sync() {
 	t.Lock()
 	t.cx = -1
 	t.cy = -1
-	if !t.fini {
+	if !t.fini && t.running {
 		t.resize()
 		t.clear = true
 		t.cells.Invalidate()
